@@ -85,13 +85,23 @@ class YajilinClue(Combinator):
     def serialize(self, env, data, idx):
         if idx >= len(data):
             return None
-        if data[idx] == "..":
-            return None
         value = data[idx]
+        if value == "..":
+            return None
+        if value == "??":
+            return 1, "0."
         DIR_MAP = {"^": 1, "v": 2, "<": 3, ">": 4}
+        if not isinstance(value, str) or len(value) < 2 or value[0] not in DIR_MAP:
+            return None
+        if not (value[1:].isascii() and value[1:].isdigit()):
+            return None
         dir = DIR_MAP[value[0]]
         n = int(value[1:])
-        return 1, f"{dir}{hex(n)[2:]}"
+        if n < 16:
+            return 1, f"{dir}{n:x}"
+        if n < 256:
+            return 1, f"{dir + 5}{n:02x}"
+        return None
 
     def deserialize(self, env, data, idx):
         if idx + 1 >= len(data):
@@ -99,13 +109,24 @@ class YajilinClue(Combinator):
         dir = data[idx]
         if dir == "0":
             return 2, ["??"]
-        if dir not in "1234":
-            return None
         DIR_MAP = {1: "^", 2: "v", 3: "<", 4: ">"}
-        n = data[idx + 1]
-        if n == ".":
-            return 2, ["??"]
-        return 2, [f"{DIR_MAP[int(dir)]}{int(n, 16)}"]
+        if dir in ("1", "2", "3", "4"):
+            n = data[idx + 1]
+            if n == ".":
+                return 2, ["??"]
+            if not all(c in "0123456789abcdef" for c in n):
+                return None
+            return 2, [f"{DIR_MAP[int(dir)]}{int(n, 16)}"]
+        if dir in ("5", "6", "7", "8", "9"):
+            if idx + 2 >= len(data):
+                return None
+            n = data[idx + 1 : idx + 3]
+            if not all(c in "0123456789abcdef" for c in n):
+                return None
+            if dir == "5":
+                return 3, ["??"]
+            return 3, [f"{DIR_MAP[int(dir) - 5]}{int(n, 16)}"]
+        return None
 
 
 YAJILIN_COMBINATOR = Grid(OneOf(YajilinClue(), Spaces("..", "a")))
